@@ -121,3 +121,59 @@ Definition check_1193 (fs : list field) : verdict :=
          (expect 3 (obs_eqb m obs) (obs_fields m)))
   | _ => VBad 99 []
   end.
+
+(* ------------------------------------------------------------------ proto/type.go, proto/descriptor.go kind functions *)
+From DG Require Gen_proto.
+From DG Require Import Gen_protokind.
+From DG Require ProtoMsg PIdl J2P.
+
+Definition opt_z_eqb (g : option Z) (ok v : Z) : bool := match g with None => ok =? 0 | Some x => (ok =? 1) && (x =? v) end.
+Definition opt_b_eqb (g : option bool) (ok v : Z) : bool := match g with None => ok =? 0 | Some x => (ok =? 1) && (Z.b2z x =? v) end.
+Definition opt_z_fields (g : option Z) : list field := match g with None => [FZ 0] | Some x => [FZ 1; FZ x] end.
+Definition opt_b_fields (g : option bool) : list field := match g with None => [FZ 0] | Some x => [FZ 1; FZ (Z.b2z x)] end.
+(* ProtoKind is int8 *)
+Definition kind8 (t : Z) : Z := if t <? 128 then t else t - 256.
+
+(* the kinds of the models: every protoreflect kind except the deprecated group *)
+Definition model_kind (k : Z) : bool := negb (ProtoMsg.wt_of_kind k =? -1).
+
+Definition check_protokinds (fs : list field) : verdict :=
+  match fs with
+  | [FZ 0; FZ t; FZ pok; FZ pv; FZ kok; FZ kv; FZ nv; FZ isint; FZ valid; FZ k2w; FZ t00; FZ t10; FZ t01; FZ t11] =>
+    let k := kind8 t in
+    vand (expect 1 (opt_b_eqb (Type_IsPacked t) pok pv) (opt_b_fields (Type_IsPacked t)))
+   (vand (expect 2 (opt_z_eqb (Type_TypeToKind t) kok kv) (opt_z_fields (Type_TypeToKind t)))
+   (vand (expect 3 ((Z.b2z (Gen_proto.Type_NeedVarint t) =? nv) && (Z.b2z (Gen_proto.Type_IsInt t) =? isint) && (Z.b2z (Gen_proto.Type_Valid t) =? valid)) [])
+   (vand (expect 4 ((Kind2Wire k =? k2w) && (Gen_proto.Kind2Wire k =? k2w)) [FZ (Kind2Wire k)])
+   (vand (expect 5 ((Gen_proto.FromProtoKindToType k false false =? t00) && (Gen_proto.FromProtoKindToType k true false =? t10) &&
+                    (Gen_proto.FromProtoKindToType k false true =? t01) && (Gen_proto.FromProtoKindToType k true true =? t11)) [])
+         (* the models' tables on the kinds they cover *)
+         (if model_kind t
+          then expect 6 ((ProtoMsg.wt_of_kind t =? k2w) && (Z.b2z (ProtoMsg.is_numeric t) =? pv) && (pok =? 1) && (Z.b2z (PIdl.packable t) =? pv) &&
+                         (Z.b2z (J2P.is_int_kind t) =? isint) && (Z.b2z (ProtoMsg.wt_of_kind t =? 0) =? nv) && (kok =? 1) && (kv =? t))
+                        [FZ (ProtoMsg.wt_of_kind t); FZ (Z.b2z (ProtoMsg.is_numeric t))]
+          else VOk)))))
+  | [FZ kind; FZ t; FZ e; FZ u; FZ pok; FZ pv; FZ wok; FZ wv; FZ ismap; FZ islist] =>
+    if (kind =? 1) || (kind =? 2) then
+      let e' := if e <? 0 then 0 else e in
+      let gp := if (e <? 0) && (t =? 19) then None   (* a LIST without element descriptor: nil dereference *)
+                else TypeDescriptor_IsPacked {| TypeDescriptor_IsPacked_t_elem_typ := e'; TypeDescriptor_IsPacked_t_typ := t;
+                                                TypeDescriptor_IsPacked_t_unpacked := zb u |} in
+      let gw := TypeDescriptor_WireType {| TypeDescriptor_WireType_f_typ := t |} in
+      vand (expect 11 (opt_b_eqb gp pok pv) (opt_b_fields gp))
+     (vand (expect 12 (opt_z_eqb gw wok wv) (opt_z_fields gw))
+     (vand (expect 13 ((Z.b2z (TypeDescriptor_IsMap {| TypeDescriptor_IsMap_f_typ := t |}) =? ismap) &&
+                       (Z.b2z (TypeDescriptor_IsList {| TypeDescriptor_IsList_f_typ := t |}) =? islist)) [])
+           (* real descriptors (kind 2): a list is packed iff its element kind is numeric and it is not declared [packed = false];
+              the wire type of a scalar / message descriptor is the model's, a map is length-delimited, a list has none *)
+           (if kind =? 2 then
+              expect 14 ((if t =? 19 then (pok =? 1) && (Z.b2z (PIdl.packable e && negb (zb u)) =? pv) else (pok =? 1) && (pv =? 0)) &&
+                         (if t =? 19 then wok =? 0 else if t =? 20 then (wok =? 1) && (wv =? 2) else (wok =? 1) && (wv =? ProtoMsg.wt_of_kind t))) []
+            else VOk)))
+    else VBad 98 []
+  | _ => VBad 99 []
+  end.
+
+Definition check_1591 (fs : list field) : verdict := check_protokinds fs.
+Definition check_791 (fs : list field) : verdict := check_protokinds fs.
+Definition check_2091 (fs : list field) : verdict := check_protokinds fs.
